@@ -456,6 +456,10 @@ func (c *FnCtx) specQuant(env *Env, q string, x *ast.CallExpr) Val {
 			if inv := c.typeInv(smtName, t, env.st); inv != "true" {
 				guards = append(guards, inv)
 			}
+		} else if _, isStruct := c.subst(t).Underlying().(*types.Struct); isStruct {
+			// struct-sorted binders range over all values of the sort: memory cells read under
+			// quantifiers carry no typing facts (see below), so a guard here would silently
+			// exempt them from the quantified statement
 		} else if inv := c.typeInv(smtName, t, env.st); inv != "true" {
 			guards = append(guards, inv)
 		}
@@ -466,7 +470,9 @@ func (c *FnCtx) specQuant(env *Env, q string, x *ast.CallExpr) Val {
 	// facts generated while evaluating the body (type invariants of reads) may mention bound variables;
 	// collect them and put them inside the quantifier
 	nf := len(c.facts)
+	c.noNaming++
 	b := c.eval(&nenv, body)
+	c.noNaming--
 	var inner []string
 	var keep []string
 	for _, f := range c.facts[nf:] {
@@ -562,7 +568,9 @@ func (c *FnCtx) specRecCall(env *Env, sf *SpecFn, args []Val, rt types.Type, ten
 		mk := func() string {
 			benv := &Env{st: &State{pc: "true", vars: map[types.Object]Val{}, heap: map[string]string{}, epoch: -2, alloc: "0", hparam: info}, spec: true, bound: nb, spkg: tenv.spkg}
 			nf := len(c.facts)
+			c.noNaming++
 			body := c.eval(benv, sf.Body)
+			c.noNaming--
 			c.facts = c.facts[:nf]
 			return body.T
 		}
